@@ -74,12 +74,15 @@ MkMulti(s) ==
       reset |-> s.reset, stagefirst |-> s.stagefirst,
       \* where the coupling constraints are declared: on the parent, or on the later / earlier of the two stages they connect
       \* (the NLP is the same: a point constraint is one row wherever it was declared)
-      pon |-> s.pon]
+      pon |-> s.pon,
+      \* history variant: the last stage is added (directly or as a clone) only after the others have been transcribed once
+      late |-> s.late]
 
 KindSeqs == {<<a>> : a \in KindIds} \cup {<<a, b>> : a \in KindIds, b \in KindIds}
             \cup (IF Thorough THEN {<<a, b, c>> : a \in {"A", "B"}, b \in KindIds, c \in {"C", "D"}} ELSE {<<"A", "B", "D">>, <<"B", "C", "A">>})
 Space == {s \in [kinds : KindSeqs, hz : {"num", "fT", "fb"}, pat : {"none", "chain", "time"}, clone : BOOLEAN, withInt : BOOLEAN,
-                 reset : BOOLEAN, stagefirst : BOOLEAN, pown : BOOLEAN, pon : {"parent", "later", "earlier"}, seed : {Seed}] :
+                 reset : BOOLEAN, stagefirst : BOOLEAN, pown : BOOLEAN, pon : {"parent", "later", "earlier"}, late : BOOLEAN, seed : {Seed}] :
+            /\ (s.late => Len(s.kinds) >= 2 /\ s.pon = "parent" /\ ~s.pown /\ ~s.reset /\ ~s.stagefirst /\ s.pat = "none" /\ s.clone)      \* nothing else invalidates after the stage is added
             /\ (s.pon # "parent" => s.pat = "chain" /\ ~s.pown /\ ~s.reset /\ ~s.stagefirst /\ Len(s.kinds) >= 2)
             /\ (s.pat = "time" => s.hz = "fb")
             /\ (s.stagefirst => ~s.reset /\ s.withInt)
@@ -88,7 +91,7 @@ Space == {s \in [kinds : KindSeqs, hz : {"num", "fT", "fb"}, pat : {"none", "cha
             /\ (s.reset => KindOf(s.kinds[1]).rhs \in {"R2", "R3", "R4"} /\ ~s.clone)
             /\ (s.withInt => \A i \in 1..Len(s.kinds) : KindOf(s.kinds[i]).rhs # "R7")
             /\ (s.reset => KindOf(s.kinds[1]).rhs # "R7")}
-Code(s) == (CASE s.pon = "parent" -> 0 [] s.pon = "later" -> 1 [] OTHER -> 2) + (IF s.pown THEN 1 ELSE 0) + (IF s.stagefirst THEN 2 ELSE 0) + Len(s.kinds) + (IF s.clone THEN 3 ELSE 0) + (IF s.withInt THEN 1 ELSE 0) + (IF s.reset THEN 5 ELSE 0)
+Code(s) == (IF s.late THEN 3 ELSE 0) + (CASE s.pon = "parent" -> 0 [] s.pon = "later" -> 1 [] OTHER -> 2) + (IF s.pown THEN 1 ELSE 0) + (IF s.stagefirst THEN 2 ELSE 0) + Len(s.kinds) + (IF s.clone THEN 3 ELSE 0) + (IF s.withInt THEN 1 ELSE 0) + (IF s.reset THEN 5 ELSE 0)
            + (CASE s.hz = "num" -> 0 [] s.hz = "fT" -> 1 [] OTHER -> 2) + (CASE s.pat = "none" -> 0 [] s.pat = "chain" -> 7 [] OTHER -> 11)
            + (CASE s.kinds[1] = "A" -> 0 [] s.kinds[1] = "B" -> 1 [] s.kinds[1] = "C" -> 2 [] s.kinds[1] = "E" -> 4 [] OTHER -> 3)
 Init == sc \in {s \in Space : Code(s) % Parts = Part}
